@@ -113,6 +113,16 @@ def run_case(job):
             if shift != 0:
                 return []
             system = oqupy.ParameterizedSystem(ham, gammas=[lambda x1, x2, g: g], lindblad_operators=[lop])
+        elif mode == "numeric-nonaffine":
+            # the same physics parameterised non-affinely: x = sinh(y) for all three parameters (the Hamiltonian, the
+            # rate *and* hence the Liouvillian are nonlinear in what the library differentiates with respect to);
+            # d/dy = sqrt(1 + x^2) d/dx
+            if shift != 0:
+                return []
+            system = oqupy.ParameterizedSystem(lambda y1, y2, y3: ham(np.sinh(y1), np.sinh(y2), np.sinh(y3)),
+                                               gammas=[lambda y1, y2, y3: np.sinh(y3)], lindblad_operators=[lop])
+            jac = np.sqrt(1.0 + np.asarray(pars, dtype=float) ** 2)
+            pars = np.arcsinh(np.asarray(pars, dtype=float))
         elif mode == "supplied":
             if shift != 0:
                 class PS(oqupy.ParameterizedSystem):
@@ -158,6 +168,8 @@ def run_case(job):
         return [{"what": "exception", "detail": "%s: %s" % (type(ex).__name__, str(ex)[:200]),
                  "tb": traceback.format_exc()[-400:]}]
     rho_f, tmat, grad = expected(case, rho0, target_fn)
+    if variant["mode"] == "numeric-nonaffine":
+        grad = grad * jac
     got = np.array(res["gradient"])
     tol = 1e-9 if variant["mode"] == "supplied" else 2e-6
     scale = max(1.0, np.max(np.abs(grad)))
@@ -219,6 +231,8 @@ def run(ctx):
             vs = [{"mode": "supplied", "target": "linear" if idx % 2 else "callable"}]
             if not shifted and (idx % (4 if quick else 2) == 0):
                 vs.append({"mode": "numeric", "target": "linear", "warmup": idx % 8 == 0})
+            if not shifted and not case["ctl"] and (idx % (4 if quick else 2) == 2 % (4 if quick else 2)):
+                vs.append({"mode": "numeric-nonaffine", "target": "callable" if idx % 8 == 2 else "linear"})
             if len(case["edims"]) == 2 and idx % 3 == 0:
                 vs.append({"mode": "supplied", "target": "linear", "order": [1, 0], "expect_differs": True})
             for v in vs:
